@@ -231,6 +231,11 @@ class World:
             elif op == "approx":
                 res = self.eko.approx(self.ep(k, f))
                 out = r("none") if res is None else r("key", self.keytok(*res))
+            elif op in ("approxfar", "approxwide"):
+                mu2, nf = self.ep(k, f)
+                far = (float(mu2) * (1 + 1e-4), nf)
+                res = self.eko.approx(far) if op == "approxfar" else self.eko.approx(far, rtol=1e-3)
+                out = r("none") if res is None else r("key", self.keytok(*res))
             elif op == "unload":
                 self.eko.unload()
                 out = r("ok")
@@ -326,6 +331,8 @@ def run_history(rng, hist, audit=True, nvals=("a", "b", "e")):
             if has:
                 for k in KEYS:
                     evs.append(w.do("approx", k=k))
+                    evs.append(w.do("approxfar", k=k))
+                    evs.append(w.do("approxwide", k=k))
                 evs.append(w.do("iter"))
                 for k in KEYS:
                     evs.append(w.do("contains", k=k))
